@@ -780,3 +780,22 @@ M("benign-unsup-info-log", (), UNS,
 M("benign-general-log-in-confusion-matrix", (), GEN,
   "    n_class = np.max(labels) + 1\n\n    c_matrix = np.zeros((n_class, n_class))",
   "    n_class = np.max(labels) + 1\n    logger.debug(\"%d classes\", n_class)\n\n    c_matrix = np.zeros((n_class, n_class))")
+
+# ---------------------------------------------------------------------------
+# round-4 seeded defects that led to new rules / premises
+# ---------------------------------------------------------------------------
+M("destroy-arcs-skips-last-node", ["C12", "C13", "C16"], SUBG,
+  "        for i in range(self.n_nodes):\n            self.nodes[i].n_plateaus = 0\n",
+  "        for i in range(self.n_nodes - 1):\n            self.nodes[i].n_plateaus = 0\n")
+M("subgraph-init-drops-index-array", ["C10", "C09"], SUBG,
+  "            self._build(X, Y, I)\n", "            self._build(X, Y, None)\n")
+M("knn-predict-early-break-on-exact-match", ["C14", "C09"], KNN,
+  "                neighbours_idx[best_k] = j\n                cur_k = best_k\n",
+  "                neighbours_idx[best_k] = j\n                if distances[best_k] == 0:\n                    break\n                cur_k = best_k\n")
+M("create-arcs-distance-to-i", ["C12"], KSUB,
+  "                        distances[k] = pre_distances[self.nodes[i].idx][\n                            self.nodes[j].idx\n                        ]\n                    else:\n                        distances[k] = distance_function(\n                            self.nodes[i].features, self.nodes[j].features\n                        )",
+  "                        distances[k] = pre_distances[self.nodes[j].idx][\n                            self.nodes[i].idx\n                        ]\n                    else:\n                        distances[k] = distance_function(\n                            self.nodes[j].features, self.nodes[i].features\n                        )")
+M("learn-shallow-snapshot", ["C17", "C01", "C02"], SUP,
+  "                best_opf = copy.deepcopy(self)", "                best_opf = copy.copy(self)")
+M("decorator-inplace-shift-premise", ["C01", "C02", "C03", "C12", "C13", "C14"], DEC,
+  "        x = x + c.EPSILON\n        y = y + c.EPSILON\n", "        x += c.EPSILON\n        y += c.EPSILON\n")
